@@ -121,6 +121,22 @@ def run_belt(cfg):
 
         env.on_step = observe
         arrivals = list(cfg["arrivals"])
+        # "holders": a second upstream party that reserves space at `at`, never puts, and withdraws the (pending or
+        # granted) reservation at `cancel` -- what a FIRST_AVAILABLE node does with the edges it does not choose
+        for k, h in enumerate(cfg.get("holders", [])):
+            gid = len(arrivals) + 1 + k
+
+            def hold(gid=gid, h=h):
+                tok = conv.reserve_put()
+                log("req", gid)
+                state["pending"].append((gid, tok))
+
+                def withdraw(tok=tok, gid=gid):
+                    conv.belt.reserve_put_cancel(tok)
+                    state["entered"].add(gid)          # no longer pending
+                    log("cancel", gid)
+                env.urgent(withdraw, (h["cancel"] - h["at"]) / float(Q))
+            env.urgent(hold, h["at"] / float(Q))
         if cfg.get("concurrent"):
             # several producers: every request is issued at its scripted instant, whatever the others do
             for i, a in enumerate(arrivals):
